@@ -10,11 +10,11 @@ Definition locs_of (x z : list Z) : list (list Z) := x :: z :: repeat [] 27.
 (* 4 columns: rank, x1, x2 (coordinates), z (variable) *)
 Definition w_din : db :=
   mkdb [mkcol 0 (Str "rank") (Orig 0); mkcol 1 (Str "x1") (Orig 1); mkcol 2 (Str "x2") (Orig 2); mkcol 3 (Str "z") (Orig 3)]
-       4 (locs_of [1; 2] [3]) false 0.
+       4 (locs_of [1; 2] [3]) false 0 false.
 (* a 2-D grid with rank, x1, x2 and one pre-existing variable "old" carrying the Z locator; uid 3 was deleted *)
 Definition w_dout : db :=
   mkdb [mkcol 0 (Str "rank") (Orig 0); mkcol 1 (Str "x1") (Orig 1); mkcol 2 (Str "x2") (Orig 2); mkcol 4 (Str "old") (Orig 4)]
-       5 (locs_of [1; 2] [4]) true 2.
+       5 (locs_of [1; 2] [4]) true 2 false.
 Definition nc_k : namconv := mknc (Str "K") true true true 1 (Str ".") true.
 Definition nc_none : namconv := mknc [] true true true 1 (Str ".") true.
 (* kriging(dbin, dbout, model, neigh) with estimation and st. dev., monovariate 2-D model *)
@@ -43,6 +43,6 @@ Definition w_names_after_kriging : list str := [Str "rank"; Str "x1"; Str "x2"; 
 (* a grid carrying one external drift variable (locator F = 3), and kriging with a model asking for one external drift *)
 Definition w_dout_f : db :=
   mkdb [mkcol 0 (Str "rank") (Orig 0); mkcol 1 (Str "x1") (Orig 1); mkcol 2 (Str "x2") (Orig 2); mkcol 3 (Str "drift") (Orig 3)]
-       4 ([1; 2] :: [] :: [] :: [3] :: repeat [] 25) true 2.
+       4 ([1; 2] :: [] :: [] :: [3] :: repeat [] 25) true 2 false.
 Definition cfg_extdrift : cfg :=
   mkcfg nc_k true true false (-1) false false 0 0 0 false 5 0 1 2 2 1 true [] false (-1) 1 0 0 true false.
